@@ -47,7 +47,17 @@ def ent(e):
 
 
 def lst(items):
-    return "[" + "; ".join(items) + "]"
+    """Coq list as nested cons (the [a; b; ...] notation costs over 1 ms per element to parse); long lists in chunks joined by ++"""
+    items = list(items)
+    if not items:
+        return "nil"
+    if len(items) > 120:
+        chunks = [lst(items[i:i + 120]) for i in range(0, len(items), 120)]
+        out = chunks[-1]
+        for c in reversed(chunks[:-1]):
+            out = "(%s ++ %s)" % (c, out)
+        return out
+    return "".join("(cons %s " % x for x in items) + "nil" + ")" * len(items)
 
 
 def leaf(l):
@@ -163,9 +173,13 @@ def summarize(o):
 
 def run(ctx):
     obs = []
-    for pkg, test, files in (("fsimpl/localfs", "^TestVerifC19Local$", ["vh_fs_common_test.go", "c19_local_test.go"]),
-                             ("fsimpl/composefs", "^TestVerifC19Compose$", ["vh_fs_common_test.go", "c19_compose_test.go"])):
-        rc, out, o = ctx.gotest(pkg, test, files, timeout=1500)
+    tests = (("fsimpl/localfs", "^TestVerifC19Local$", ["vh_fs_common_test.go", "c19_local_test.go"]),
+             ("fsimpl/composefs", "^TestVerifC19Compose$", ["vh_fs_common_test.go", "c19_compose_test.go"]))
+    from concurrent.futures import ThreadPoolExecutor
+    with ThreadPoolExecutor(max_workers=2) as ex:
+        futs = [ex.submit(ctx.gotest, pkg, test, files, None, 1500) for pkg, test, files in tests]
+        results = [f.result() for f in futs]
+    for (pkg, test, files), (rc, out, o) in zip(tests, results):
         if rc != 0 or not o:
             ctx.harness_broken("harness %s %s failed (rc=%d)" % (pkg, test, rc), out)
             continue
